@@ -729,6 +729,17 @@ class JacobianAssembly:
         n_residuals = self.compute_dimension(sorted_couplings_minimal)
         if residual_variables:
             n_residuals += self.compute_dimension(residual_variables.keys())
+        if not couplings_and_res:
+            # The functions depend on no coupling variable:
+            # their total derivatives are their partial derivatives.
+            return self.split_jac(
+                {
+                    fun: self.assemble_jacobian([fun], variables).toarray()
+                    for fun in functions
+                },
+                variables,
+            )
+
         # compute the partial derivatives of the residuals
         dres_dx = self.assemble_jacobian(couplings_and_res, variables, is_residual=True)
 
